@@ -16,6 +16,7 @@ import (
 // port-scan detection, whatever port it was aimed at (nmap -g 53).
 func c20DecoderByDestination(c *Ctx) {
 	const rule = "decoder-by-destination-port"
+	c.Explanation += " Decoder tables are consulted with the destination port only."
 	p := c.P
 	isDecoderTable := func(t types.Type) bool {
 		m, ok := t.Underlying().(*types.Map)
